@@ -188,6 +188,7 @@ type peerFrame struct {
 }
 
 type behaviour struct {
+	once  *int   // badCrcOnce: how often the behaviour has acted
 	kind  string // ok | silent | closeBefore | closeInside | garbled | badCrc | malformed | empty | trailing | raw
 	k     int
 	items []byte   // encoded reply items for ok-like kinds
@@ -340,6 +341,17 @@ func (p *peer) act(c net.Conn, pc *peerCipher, b behaviour) bool {
 			n = len(ct)
 		}
 		c.Write(ct[:n])
+	case "badCrcOnce":
+		// the reply is damaged the first time this behaviour acts (one flipped time-stamp bit, checksum untouched) and
+		// intact every later time
+		pl := frameBytes(b.items, true, now.Unix(), int32(now.Nanosecond()))
+		if b.once != nil && *b.once == 0 {
+			pl[5] ^= 0x10
+		}
+		if b.once != nil {
+			*b.once++
+		}
+		c.Write(enc(pl))
 	case "badCrc":
 		pl := frameBytes(b.items, true, now.Unix(), int32(now.Nanosecond()))
 		l := int(binary.LittleEndian.Uint16(pl[16:]))
